@@ -143,16 +143,38 @@ def add_targets(E, spec, pid):
         return VCoro("wait_for", run)
     M["asyncio.wait_for"] = wait_for
 
-    # ---- symbolic client --------------------------------------------------------------------------------
+    # ---- symbolic client: the state the REAL GeminiClient.__init__ leaves, for symbolic constructor arguments --------
+    E.inline.add(f"{CL}.__init__")
+
+    def tofu_init(ctx, args, kw):
+        obj = args[0]
+        ctx.setf(obj, "db_path", VOpaque("path", z3.Int("db_path_id")))
+        E.sqlite_db_of(ctx)
+        return NONE
+    M[(TOFU, "__init__")] = tofu_init
+    E.contracts[f"{TOFU}.__init__"] = None
+    E.caller_contracts[f"{TOFU}.__init__"] = Contract(f"{TOFU}.__init__", result=T.none,
+                                                      ensures=[("store opened", lambda ctx, old, a, o: (ctx.setf(a[0], "db_path", VOpaque("path", z3.Int("db_path_id"))), E.sqlite_db_of(ctx), None)[2])])
+    E.caller_contracts["nauyaca.security.tls:create_client_context"] = Contract(
+        "nauyaca.security.tls:create_client_context", result=T.make(lambda c, h: VOpaque("sslctx", c.fresh_int("sslctx"))), raises=["ValueError", "OSError"])
+    E.use_assumption("GeminiClient objects are those the real __init__ produces for arbitrary constructor arguments (TOFUDatabase(...) and create_client_context by contract: C12/C20)")
+
     def mk_client(ctx):
-        db = mk_db(ctx)
-        cl = ctx.alloc(CL, {"timeout": VReal(z3.Real("self.timeout")), "ssl_context": VOpaque("sslctx", z3.Int("sslctx_id")),
-                            "max_redirects": VInt(z3.Int("self.max_redirects"))})
-        ctx.heap[cl.oid]["tofu_db"] = VLazyOpt(z3.Bool("tofu_enabled"), lambda c: db, "self.tofu_db")
+        from pyvc.values import Infeasible
+        kwargs = {"timeout": VReal(z3.Real("self.timeout")), "max_redirects": VInt(z3.Int("self.max_redirects")),
+                  "ssl_context": VLazyOpt(z3.Bool("ssl_context_given"), lambda c: VOpaque("sslctx", z3.Int("sslctx_id")), "ssl_context"),
+                  "verify_ssl": VBool(z3.Bool("verify_ssl")), "trust_on_first_use": VBool(z3.Bool("tofu_enabled")),
+                  "tofu_db_path": VLazyOpt(z3.Bool("tofu_db_path_given"), lambda c: VOpaque("path", z3.Int("db_path_arg")), "tofu_db_path"),
+                  "client_cert": NONE, "client_key": NONE}      # they only select arguments of create_client_context (C20)
+        E.sqlite_db_of(ctx)
+        try:
+            cl = E.instantiate(ctx, None, VClass(CL), [], kwargs)
+        except PyRaise:
+            raise Infeasible()          # no client object: nothing to call
         ctx.ghost["tofu_mode"] = z3.Bool("tofu_enabled")
         ctx.ghost["g_verified"] = z3.BoolVal(False)
         ctx.ghost["connections"] = []
-        return cl, db
+        return cl, None
 
     def common_post(ctx, old, args, outcome, host, port):
         cl = args[0]
